@@ -19,7 +19,12 @@ def main():
   subprocess.run(['git', '-C', '/repo', 'worktree', 'add', '-q', '--detach', w, 'HEAD'], check=True)
   out = {}
   try:
-    r = subprocess.run(['git', '-C', w, 'apply', os.path.join(d, 'patch.diff')], capture_output=True, text=True)
+    patch = os.path.join(d, 'patch.diff')
+    if os.path.exists(os.path.join(d, 'patch_rebased.diff')):
+      patch = os.path.join(d, 'patch_rebased.diff')   # the same change on top of later fixes
+    r = subprocess.run(['git', '-C', w, 'apply', patch], capture_output=True, text=True)
+    if r.returncode != 0:
+      r = subprocess.run(['git', '-C', w, 'apply', '--3way', patch], capture_output=True, text=True)
     if r.returncode:
       print('patch does not apply:', r.stderr); return 2
     env = dict(os.environ, VERIF_REPO=w)
